@@ -434,3 +434,205 @@ def u_outer(U):
         U.post('value-is-the-product-of-the-two-values', ctx + [cs1, cs2, P2(d2_ - 1)],
                val(R, ix, d) == v1 * val(A2, jx, d2_), axioms=AXS, mode='ematch')
         U.canary('canary-value-is-that-of-Y2', ctx + [cs1, cs2, P2(d2_ - 1)], val(R, ix, d) == val(A2, jx, d2_), axioms=AXS)
+
+
+# ----------------------------------------------------------------------------------------------
+# act_two.mul, tensor * tensor: Kronecker cores; value = product of the two values (mixed-product rule, proved in Lean)
+
+AXK = T.axioms('shape', 'mulI', 'core', 'chain', 'kron')
+
+
+@unit('act_two.mul.tt_tt', props=('C01',))
+def u_mul_tt(U):
+    fn = U.func('act_two', 'mul')
+    st = U.state()
+    Y1, A1, d = S.tt_param(st, 'Y1', z3.Int('d'))
+    Y2, A2, _ = S.tt_param(st, 'Y2', d)
+    t = z3.Int('t!m')
+
+    def inv(ex, s, j):
+        Ys = s.deref(s.vars['Y'])
+        if not (isinstance(Ys, VSeq) and Ys.tag == 'core'):
+            raise M.ContractMismatch('mul(): Y is not the list of result cores')
+        return [('one-core-per-processed-pair', Ys.n == j),
+                ('cores-are-the-Kronecker-cores', z3.ForAll([t], z3.Implies(z3.And(0 <= t, t < j), Ys.arr[t] == T.kc(A1[t], A2[t])),
+                                                           patterns=[Ys.arr[t]]))]
+
+    ex = U.executor(fn, loops={0: {'inv': inv}}, axioms=AXK, type_hints={'Y': 'tt'})
+    ex.mode = 'ematch'
+    st.vars.update(Y1=Y1, Y2=Y2)
+    res = U.run(ex, st, pre=[T.wf(A1, d), T.wf(A2, d), same_shape(A1, A2, d)])
+    U.cover('precondition-satisfiable', U.pre, axioms=AXK)
+    ix = z3.Const('ix', T.IDX)
+    kk = z3.Int('kk')
+    for p, o in res:
+        if o.kind != 'return':
+            U.post('no-exception', p, False, axioms=AXK, mode='ematch')
+            continue
+        Rs = p.deref(o.value)
+        if not (isinstance(Rs, VSeq) and Rs.tag == 'core'):
+            U.post('result-is-a-list-of-cores', p, False)
+            continue
+        R = Rs.arr
+        U.post('fresh-result-and-arguments-untouched', p,
+               z3.BoolVal(isinstance(o.value, VRef) and o.value.oid not in (Y1.oid, Y2.oid) and p.heap[Y1.oid].arr is A1 and p.heap[Y2.oid].arr is A2))
+        U.post('same-length', p, Rs.n == d, axioms=AXK, mode='ematch')
+        U.post('cores-are-the-Kronecker-cores', p, z3.Implies(z3.And(0 <= t, t < d), R[t] == T.kc(A1[t], A2[t])), axioms=AXK, mode='ematch')
+        U.post('well-formed', p, T.wf(R, d), axioms=AXK, mode='ematch')
+        U.post('same-mode-sizes-and-product-ranks', p,
+               z3.Implies(z3.And(0 <= t, t < d), z3.And(T.d1(R[t]) == T.d1(A1[t]), T.d2(R[t]) == T.mulI(T.d2(A1[t]), T.d2(A2[t])))),
+               axioms=AXK, mode='ematch')
+        ctx = list(p.pc) + [T.index_ok(ix, A1, d)]
+        cs1 = lemma_chain_shape(U, 'Y1', A1, ix, d, ctx, AXK)
+        cs2 = lemma_chain_shape(U, 'Y2', A2, ix, d, ctx, AXK)
+        P = lambda k: T.chain(R, ix, k) == T.kron(T.chain(A1, ix, k), T.chain(A2, ix, k))
+        U.lemma('chain-of-the-product-is-the-Kronecker-product-of-the-chains.base', ctx + [cs1, cs2], P(z3.IntVal(0)), axioms=AXK,
+                mode='ematch', kind='lemma-base')
+        U.lemma('chain-of-the-product-is-the-Kronecker-product-of-the-chains.step', ctx + [cs1, cs2, kk >= 1, kk < d, P(kk - 1)], P(kk),
+                axioms=AXK, mode='ematch', kind='lemma-step')
+        lem = z3.ForAll([kk], z3.Implies(z3.And(0 <= kk, kk < d), P(kk)), patterns=[T.chain(R, ix, kk)])
+        U.post('value-is-the-product-of-the-entries', ctx + [lem, cs1, cs2], val(R, ix, d) == val(A1, ix, d) * val(A2, ix, d), axioms=AXK,
+               mode='ematch')
+        U.canary('canary-value-is-that-of-the-first-factor', ctx + [lem, cs1, cs2], val(R, ix, d) == val(A1, ix, d), axioms=AXK)
+
+
+# ----------------------------------------------------------------------------------------------
+# act_two.mul_scalar (plain and stabilised): the result is the 1 x 1 end of the scalar-product chain
+#     schain(Y1, Y2, k) = prod_{t <= k} sum_j kron(Y1[t][:, j, :], Y2[t][:, j, :]),
+# with use_stab: mantissa * 2^p = that value, p an integer (C16: "a mantissa and a power-of-two exponent whose product is
+# the true value").  That the end of this chain is the sum over all multi-indices of val(Y1, i) * val(Y2, i) is the
+# distributive law L-SUMPROD (cited lemma, not re-proved).
+
+AXM = T.axioms('shape', 'mulI', 'core', 'smul', 'schain', 'pow2r', 'pow2add')
+
+
+def _mul_scalar_unit(U, use_stab):
+    fn = U.func('act_two', 'mul_scalar')
+    st = U.state()
+    Y1, A1, d = S.tt_param(st, 'Y1', z3.Int('d'))
+    Y2, A2, _ = S.tt_param(st, 'Y2', d)
+
+    def inv(ex, s, j):
+        v, p = s.vars['v'], s.vars['p']
+        if not (isinstance(v, VArr) and v.ndim == 2 and v.tag == 'mat' and v.t is not None):
+            raise M.ContractMismatch('mul_scalar(): v is not a matrix after the first pass')
+        if not M.is_intsort(Z(p)):
+            return [('exponent-is-an-integer', z3.BoolVal(False))]
+        scaled = T.smul(T.pow2r(z3.ToReal(Z(p))), v.t) if use_stab else v.t
+        out = [('accumulated-product-is-the-chain-up-to-the-last-processed-core', scaled == T.schain(A1, A2, j - 1)),
+               ('accumulated-product-is-a-row-block', z3.And(T.rows(v.t) == 1, T.cols(v.t) == T.mulI(T.d2(A1[j - 1]), T.d2(A2[j - 1]))))]
+        if not use_stab:
+            out.append(('exponent-untouched', Z(p) == 0))
+        return out
+
+    ex = U.executor(fn, loops={0: {'inv': inv, 'peel': 1}}, axioms=AXM)
+    ex.mode = 'ematch'
+    st.vars.update(Y1=Y1, Y2=Y2, use_stab=use_stab)
+    res = U.run(ex, st, pre=[T.wf(A1, d), T.wf(A2, d), same_shape(A1, A2, d)])
+    U.cover('precondition-satisfiable', U.pre, axioms=AXM)
+    for p, o in res:
+        if o.kind != 'return':
+            U.post('no-exception', p, False, axioms=AXM, mode='ematch')
+            continue
+        U.post('arguments-untouched', p, z3.BoolVal(p.heap[Y1.oid].arr is A1 and p.heap[Y2.oid].arr is A2))
+        true_value = T.ent(T.schain(A1, A2, d - 1), 0, 0)
+        if use_stab:
+            ok = isinstance(o.value, VTuple) and len(o.value.items) == 2 and M.is_intsort(Z(o.value.items[1]))
+            U.post('returns-mantissa-and-integer-exponent', p, z3.BoolVal(ok))
+            if not ok:
+                continue
+            m_, e_ = o.value.items
+            U.post('mantissa-times-2^exponent-is-the-scalar-product', p, T.pow2r(z3.ToReal(Z(e_))) * M.to_real(m_) == true_value,
+                   axioms=AXM, mode='ematch')
+            U.canary('canary-exponent-always-zero', p, Z(e_) == 0, axioms=AXM)
+        else:
+            U.post('returns-a-number', p, z3.BoolVal(M.is_num(o.value)))
+            if M.is_num(o.value):
+                U.post('value-is-the-scalar-product', p, M.to_real(o.value) == true_value, axioms=AXM, mode='ematch')
+                U.canary('canary-value-always-zero', p, M.to_real(o.value) == 0, axioms=AXM)
+
+
+@unit('act_two.mul_scalar', props=('C01',))
+def u_mul_scalar(U):
+    _mul_scalar_unit(U, False)
+
+
+@unit('act_two.mul_scalar.stab', props=('C01', 'C16'))
+def u_mul_scalar_stab(U):
+    _mul_scalar_unit(U, True)
+
+
+def call_mul_scalar(ex, st, args, kwargs, node):
+    """Call-site contract of mul_scalar (proved by the units act_two.mul_scalar[.stab])."""
+    Y1, Y2 = st.deref(args[0]), st.deref(args[1])
+    if not (isinstance(Y1, VSeq) and isinstance(Y2, VSeq) and Y1.tag == 'core' and Y2.tag == 'core'):
+        raise M.Unsupported('mul_scalar: arguments are not TT lists')
+    stab = kwargs.get('use_stab', args[2] if len(args) > 2 else False)
+    if not isinstance(stab, bool):
+        raise M.Unsupported('mul_scalar: use_stab is not a literal')
+    d = Y1.n
+    ex.oblige(st, 'call-pre', 'mul_scalar: two well-formed tensors of the same shape',
+              z3.And(Y2.n == d, T.wf(Y1.arr, d), T.wf(Y2.arr, d), same_shape(Y1.arr, Y2.arr, d)), node)
+    true_value = T.ent(T.schain(Y1.arr, Y2.arr, d - 1), 0, 0)
+    st.ghost.setdefault('mul_scalar', []).append((Y1.arr, Y2.arr, d, stab))
+    if stab:
+        m_, e_ = ex.fresh_real('mant'), ex.fresh_int('expo')
+        st.assume(T.pow2r(z3.ToReal(e_)) * m_ == true_value)
+        return VTuple([m_, e_])
+    v = ex.fresh_real('dot')
+    st.assume(v == true_value)
+    return v
+
+
+M.CALLEES['act_two.mul_scalar'] = call_mul_scalar
+
+
+def _norm_unit(U, use_stab):
+    fn = U.func('act_one', 'norm')
+    AXN = T.axioms('shape', 'real', 'pow2r', 'pow2add')
+    ex = U.executor(fn, axioms=AXN)
+    st = U.state()
+    Y, A, d = S.tt_param(st, 'Y')
+    st.vars.update(Y=Y, use_stab=use_stab)
+    res = U.run(ex, st, pre=[T.wf(A, d)])
+    U.cover('precondition-satisfiable', U.pre, axioms=AXN)
+    sq = T.ent(T.schain(A, A, d - 1), 0, 0)              # <Y, Y>
+    for p, o in res:
+        if o.kind != 'return':
+            U.post('no-exception', p, False, axioms=AXN)
+            continue
+        calls = p.ghost.get('mul_scalar', [])
+        U.post('one-scalar-product-of-the-tensor-with-itself', p,
+               z3.BoolVal(len(calls) == 1 and calls[0][0] is A and calls[0][1] is A and calls[0][3] == use_stab))
+        if use_stab:
+            ok = isinstance(o.value, VTuple) and len(o.value.items) == 2 and M.is_num(o.value.items[0]) and M.is_num(o.value.items[1])
+            U.post('returns-mantissa-and-exponent', p, z3.BoolVal(ok))
+            if not ok:
+                continue
+            n_, h_ = [M.to_real(x) for x in o.value.items]
+            ph = T.pow2r(h_)
+            inst = [z3.Implies(h_ + h_ == h_ + h_, T.pow2r(h_ + h_) == ph * ph), ph > 0]          # instances of 'pow2add' / 'pow2r'
+            U.post('mantissa-non-negative', p, n_ >= 0, axioms=AXN)
+            U.post('exponent-is-an-integer-or-half-integer', p, z3.IsInt(2 * h_), axioms=AXN)
+            U.post('(mantissa*2^exponent)^2-is-<Y,Y>-when-positive', p, z3.Implies(sq > 0, (n_ * ph) * (n_ * ph) == sq), axioms=AXN, extra=inst)
+            U.post('zero-mantissa-when-<Y,Y>-is-not-positive', p, z3.Implies(sq <= 0, n_ == 0), axioms=AXN, extra=inst)
+            U.canary('canary-exponent-always-zero', p, h_ == 0, axioms=AXN)
+        else:
+            U.post('returns-a-number', p, z3.BoolVal(M.is_num(o.value)))
+            if not M.is_num(o.value):
+                continue
+            n_ = M.to_real(o.value)
+            U.post('non-negative', p, n_ >= 0, axioms=AXN)
+            U.post('square-is-<Y,Y>-when-positive', p, z3.Implies(sq > 0, n_ * n_ == sq), axioms=AXN)
+            U.post('zero-when-<Y,Y>-is-not-positive', p, z3.Implies(sq <= 0, n_ == 0), axioms=AXN)
+            U.canary('canary-always-zero', p, n_ == 0, axioms=AXN)
+
+
+@unit('act_one.norm', props=('C01', 'C11'))
+def u_norm(U):
+    _norm_unit(U, False)
+
+
+@unit('act_one.norm.stab', props=('C01', 'C16'))
+def u_norm_stab(U):
+    _norm_unit(U, True)
